@@ -109,3 +109,42 @@ Theorem C33_available_after_put_back : forall (info : node_info) (origin : wres)
   NoDup (keys av) /\ forall c, In c (keys (wr_cpumap origin)) -> lookup_opt av c = Some base.
 Proof. exact avail_after_put_back. Qed.
 Print Assumptions C33_available_after_put_back.
+
+(* C33_affinity_numa: the NUMA case after /repo 3d8e6c0.  GetCPUPlans visits the
+   NUMA node [nu] holding the origin's cores first (C33_visit_order_head), and for
+   every such order: a granted keep-bind realloc for the same whole number of
+   cores stays on exactly the origin's cores and on node [nu], with the node's
+   memory record {nu: new memory}, UNLESS node [nu] itself yields no plan, i.e.
+   its memory cannot hold the new request (the remaining known finding
+   C33-numa-memory-tight).  The two hypotheses on the per-node map say that the
+   origin's cores are whole free cores of node [nu] after the put-back. *)
+Theorem C33_affinity_numa : forall sortf (info : node_info) (base maxshare : Z) (origin : wres) (raw nr : wreq)
+    (nu : string) (order : list string) (fuel : nat) (new d : wres),
+  (0 < base)%Z ->
+  rq_keep raw = true ->
+  nu <> EmptyString ->
+  wr_cpumap origin <> [] -> NoDup (keys (wr_cpumap origin)) ->
+  (forall c v, In (c, v) (wr_cpumap origin) -> v = base) ->
+  let info' := put_back info origin in
+  let avail := get_available_nofloat info' in
+  let numamap := numa_cpu_map (nr_numa (ni_cap info)) (nr_cpumap avail) nu in
+  let numamem := Z.min (Types.lookup 0%Z (nr_numamem avail) nu) (nr_mem avail) in
+  NoDup (keys numamap) ->
+  (forall c, In c (keys (wr_cpumap origin)) -> lookup_opt numamap c = Some base) ->
+  wreq_validate (realloc_newreq origin raw) = inr nr ->
+  pieces_request base (rq_cpu_req nr) = (base * Z.of_nat (List.length (wr_cpumap origin)))%Z ->
+  Realloc.calculate_realloc_g sortf info base maxshare origin raw (nu :: order) fuel = Ok (inr (new, d)) ->
+  (wr_numanode new = nu /\ wr_numamem new = [(nu, rq_mem_req nr)] /\
+   forall k, lookup_opt (wr_cpumap new) k = lookup_opt (wr_cpumap origin) k)
+  \/ do_get_cpu_plans_g sortf (wr_cpumap origin) numamap numamem base maxshare (rq_cpu_req nr) (rq_mem_req nr) fuel = Ok [].
+Proof. exact realloc_keeps_cores_numa. Qed.
+Print Assumptions C33_affinity_numa.
+
+From Verif Require Import Cobalt.AffinityProofs.
+Theorem C33_visit_order_head : forall (info : node_info) (origin : smap Z) (nu : string),
+  In nu (numa_nodes info) ->
+  origin_on (nr_numa (ni_cap info)) origin nu = true ->
+  (forall y, y <> nu -> origin_on (nr_numa (ni_cap info)) origin y = false) ->
+  exists rest, numa_visit_order info origin = nu :: rest.
+Proof. exact visit_order_head. Qed.
+Print Assumptions C33_visit_order_head.
